@@ -42,6 +42,7 @@ type Op struct {
 	A  string   `json:"a,omitempty"`
 	B  string   `json:"b,omitempty"`
 	V  int      `json:"v,omitempty"`
+	B2 int      `json:"v2,omitempty"`
 	P  []string `json:"p,omitempty"`
 	NP []string `json:"np,omitempty"`
 }
@@ -73,8 +74,10 @@ func genOps(t *rapid.T) Case {
 			c.Ops = append(c.Ops, Op{K: "set", A: name("a"), V: rapid.IntRange(0, 5).Draw(t, "v")})
 		case k < 40:
 			c.Ops = append(c.Ops, Op{K: "setlog", A: name("a"), V: rapid.IntRange(0, 5).Draw(t, "v")})
-		case k < 42:
+		case k < 41:
 			c.Ops = append(c.Ops, Op{K: "burst", A: name("a"), V: rapid.SampledFrom([]int{8, 9, 17, 30, 3}).Draw(t, "burst")})
+		case k < 42:
+			c.Ops = append(c.Ops, Op{K: "racelog", A: name("a"), V: rapid.IntRange(0, 5).Draw(t, "v"), B2: rapid.IntRange(0, 5).Draw(t, "v2")})
 		case k < 50:
 			c.Ops = append(c.Ops, Op{K: "delete", A: name("a")})
 		case k < 56:
@@ -265,6 +268,21 @@ func runOn(c Case, rs ref.Store, fsMode bool) (o evid.Outcome, err error) {
 			if op.V >= 8 {
 				longLog = true
 			}
+		case "racelog":
+			// two writers on one name: the second writer's logged set lands between the first
+			// writer's read of the current value (ref.SaveRef reads it before SetWithLog) and its
+			// write. Each log entry's old value must still be the value the ref held just before.
+			inner := fmt.Sprintf("inner%d", step)
+			outer := fmt.Sprintf("outer%d", step)
+			var ierr error
+			w := &getThen{Store: rs, then: func() {
+				ierr = ref.SaveRef(rs, op.A, val(op.B2), "n", "e", inner, "msg", nil)
+			}}
+			if err := ref.SaveRef(w, op.A, val(op.V), "n", "e", outer, "msg", nil); err != nil || ierr != nil {
+				return o, fmt.Errorf("step %d: SaveRef(%q) with a concurrent writer: %v / %v", step, op.A, err, ierr)
+			}
+			m.logs[op.A] = append(m.logs[op.A], logEntry{m.vals[op.A], val(op.B2), inner}, logEntry{val(op.B2), val(op.V), outer})
+			m.vals[op.A] = val(op.V)
 		case "delete":
 			err := rs.Delete(op.A)
 			if _, ok := m.vals[op.A]; ok && err != nil {
@@ -416,6 +434,23 @@ func runOn(c Case, rs ref.Store, fsMode bool) (o evid.Outcome, err error) {
 	}
 	o.Class("ops=%s", bucket(len(c.Ops)))
 	return o, nil
+}
+
+// getThen runs a callback right after the first Get (once): the window between a caller's read of
+// the current value and its write.
+type getThen struct {
+	ref.Store
+	then func()
+	done bool
+}
+
+func (g *getThen) Get(key string) ([]byte, error) {
+	v, err := g.Store.Get(key)
+	if !g.done {
+		g.done = true
+		g.then()
+	}
+	return v, err
 }
 
 func first(b []byte) []byte {
